@@ -862,4 +862,56 @@ theorem surfaceDragOfRadius_continuousAt (kappa l : ℝ) : ContinuousAt (surface
     norm_num
 
 
+/-! ### glue of the public water functions and of the constructor -/
+
+theorem bisect_mem (g : ℝ → ℝ) (k : ℕ) (lo hi : ℝ) (h : lo ≤ hi) : lo ≤ bisect g k lo hi ∧ bisect g k lo hi ≤ hi := by
+  induction k generalizing lo hi with
+  | zero => simp only [bisect, two_real]; constructor <;> linarith
+  | succ k ih =>
+    have hm1 : lo ≤ (lo + hi) / 2 := by linarith
+    have hm2 : (lo + hi) / 2 ≤ hi := by linarith
+    simp only [bisect, two_real]
+    split
+    · obtain ⟨a, b⟩ := ih ((lo + hi) / 2) hi hm2; exact ⟨by linarith, b⟩
+    · obtain ⟨a, b⟩ := ih lo ((lo + hi) / 2) hm1; exact ⟨a, by linarith⟩
+
+/-- whatever `molarity_to_molality` answers lies in the bracket `[0, 6]` mol/kg -/
+theorem molarityToMolality_mem (t c p m : ℝ) (h : molarityToMolality t c p = .ok m) : 0 ≤ m ∧ m ≤ 6 := by
+  simp only [molarityToMolality] at h
+  have z : (0.0:ℝ) = 0 := by norm_num
+  have s : (6.0:ℝ) = 6 := by norm_num
+  split_ifs at h
+  · cases h; rw [z]; norm_num
+  · cases h; rw [s]; norm_num
+  · cases h
+    have := bisect_mem (molalityResidual t c p) 100 0 6 (by norm_num)
+    rw [z, s]; exact this
+
+theorem saltValid_real (t m p : ℝ) : saltValid t m p = true ↔ (20 ≤ t ∧ t < 150) ∧ p ≤ 35 ∧ m ≤ 6 := by
+  simp only [saltValid, RealLike.le, RealLike.lt, Bool.and_eq_true, decide_eq_true_eq]
+  norm_num
+  tauto
+
+theorem saltViscosity_pos (t m p : ℝ) (ht0 : 20 ≤ t) (ht1 : t ≤ 150) (hp0 : 0 ≤ p) (hp1 : p ≤ 35) (h0 : 0 ≤ m)
+    (h6 : m ≤ 6) : 0 < saltViscosity t m p := by
+  unfold saltViscosity
+  have hz := zpv_pos t m
+  obtain ⟨_, hlow⟩ := pf_lipschitz t m m ht0 ht1 h0 (le_refl _) h6
+  have e1 : (1.0e-6 : ℝ) = 1e-6 := by norm_num
+  have e2 : (1.0 : ℝ) = 1 := by norm_num
+  have e3 : (1000.0 : ℝ) = 1000 := by norm_num
+  rw [e1, e2, e3]
+  have : 0 < 1 + pressureFactor t m * p / 1000 := by
+    have : -2 * 35 ≤ pressureFactor t m * p := by nlinarith
+    linarith
+  positivity
+
+/-- non-vacuity: plain water at 25 °C, asked through the salt model (molarity 0): the conversion answers 0 mol/kg -/
+theorem molarityToMolality_zero : molarityToMolality (25:ℝ) 0 0.101325 = .ok 0.0 := by
+  have hv : saltValid (25:ℝ) 0.0 0.101325 = true := by rw [saltValid_real]; norm_num
+  have g0 : molalityResidual (25:ℝ) 0 0.101325 0.0 = 0 := by simp [molalityResidual]; norm_num
+  simp only [molarityToMolality, hv, g0, RealLike.lt, isZero_real]
+  norm_num
+
+
 end Verif.C20
